@@ -1,4 +1,54 @@
+(** C02 — reaction centre = changed bonds (+ H-H bonds); radius-k context = atoms within k bonds; chain.
+    Statements only; every proof is [exact <lemma of proof/C02_Proof.v>].
+    Vocabulary: [wf] (lib/LGraph.v); [std_consistent g] = standard_order is order_G - order_H on every edge
+    (proved for every output of its_construct: C01_union); [is_h g u] = the ITS node u has top-level element "H";
+    [rc_attr a] = the labels get_rc copies (element, charge, typesGH, atom_map); [dist_le g S k n] = some walk of
+    at most k bonds leads from a node of S to n; [geq] = same node labels and same edge map. *)
 From Coq Require Import List NArith ZArith Bool.
-From SK Require Import lib.LGraph model.C01_Model model.C02_Model proof.C02_Proof.
-Theorem C02_stub : forall a, rc_attr (rc_attr a) = rc_attr a. Proof. exact stub_c02. Qed.
-Print Assumptions C02_stub.
+From SK Require Import lib.LGraph lib.C01_GraphLemmas model.C01_Model model.C02_Model proof.C02_Proof.
+Local Open Scope Z_scope.
+
+(** 1. a bond is in the centre iff its two orders differ or both atoms are hydrogens; it keeps its labels *)
+Theorem C02_rc_edges : forall g : its, wf g -> std_consistent g -> forall u v e,
+  adj (get_rc g) u v = Some e <->
+  adj g u v = Some e /\ (e_G e <> e_H e \/ (is_h g u = true /\ is_h g v = true)).
+Proof. exact rc_edges. Qed.
+Print Assumptions C02_rc_edges.
+
+(** 2. the atoms of the centre are exactly the endpoints of its bonds, each with the selected ITS labels *)
+Theorem C02_rc_nodes : forall g : its, wf g -> forall n b,
+  label (get_rc g) n = Some b <->
+  (exists a, label g n = Some a /\ b = rc_attr a) /\ (exists v e, adj (get_rc g) n v = Some e).
+Proof. exact rc_nodes. Qed.
+Print Assumptions C02_rc_nodes.
+
+(** 3. extracting the centre of a centre changes nothing *)
+Theorem C02_rc_idem : forall g : its, wf g -> geq (get_rc (get_rc g)) (get_rc g).
+Proof. exact rc_idem. Qed.
+Print Assumptions C02_rc_idem.
+
+(** 4. get_rc commutes with every injective renumbering (hence isomorphic centres) *)
+Theorem C02_rc_equivariant : forall f : N -> N, (forall a b, f a = f b -> a = b) -> forall g : its,
+  get_rc (relabel f g) = relabel f (get_rc g).
+Proof. exact rc_equivariant. Qed.
+Print Assumptions C02_rc_equivariant.
+
+(** 5. for k >= 1 the radius-k context is the induced subgraph of the ITS on exactly the atoms within k bonds
+       of the centre *)
+Theorem C02_ctx_spec : forall g : its, wf g -> forall k, (1 <= k)%nat ->
+  let B := dist_le g (node_ids (get_rc g)) k in
+  (forall n, In n (node_ids (extract_k g k)) <-> B n) /\
+  (forall n a, label (extract_k g k) n = Some a <-> label g n = Some a /\ B n) /\
+  (forall u v e, adj (extract_k g k) u v = Some e <-> adj g u v = Some e /\ B u /\ B v).
+Proof. exact ctx_spec. Qed.
+Print Assumptions C02_ctx_spec.
+
+(** 6. centre = context(0) within context(k) within context(k') within the ITS (k <= k'), as atom and bond sets *)
+Theorem C02_ctx_chain : forall g : its, wf g -> forall k k', (k <= k')%nat ->
+  extract_k g 0 = get_rc g /\
+  (forall n, In n (node_ids (extract_k g k)) -> In n (node_ids (extract_k g k'))) /\
+  (forall u v e, adj (extract_k g k) u v = Some e -> adj (extract_k g k') u v = Some e) /\
+  (forall n, In n (node_ids (extract_k g k')) -> In n (node_ids g)) /\
+  (forall u v e, adj (extract_k g k') u v = Some e -> adj g u v = Some e).
+Proof. exact ctx_chain. Qed.
+Print Assumptions C02_ctx_chain.
